@@ -103,7 +103,7 @@ Proof. intro H. destruct (env_eqb a b) eqn:E; [apply env_eqb_eq in E; contradict
 (* C17_inputs: one input per parameter, in order                                       *)
 Lemma inputs_preview_loop_ok ps : forall acc,
   NoDup (keys acc ++ map p_name ps) ->
-  existsb (fun p => mems (p_name p) init_keywords) ps = false ->
+  existsb (fun p => mems (p_name p) reserved_keywords) ps = false ->
   inputs_preview_loop acc ps = Ok (acc ++ map input_entry ps).
 Proof.
   induction ps as [|p r IH]; intros acc Hnd Hk; simpl.
@@ -119,17 +119,17 @@ Proof.
 Qed.
 
 Lemma inputs_preview_loop_reserved ps : forall acc,
-  existsb (fun p => mems (p_name p) init_keywords) ps = true ->
+  existsb (fun p => mems (p_name p) reserved_keywords) ps = true ->
   inputs_preview_loop acc ps = Err ValueErr.
 Proof.
   induction ps as [|p r IH]; intros acc Hk; simpl in *; [discriminate|].
-  destruct (mems (p_name p) init_keywords); [reflexivity|]. apply IH. exact Hk.
+  destruct (mems (p_name p) reserved_keywords); [reflexivity|]. apply IH. exact Hk.
 Qed.
 
 Theorem inputs_preview_spec d :
   NoDup (map p_name (f_params d)) ->
   inputs_preview d =
-    if existsb (fun p => mems (p_name p) init_keywords) (f_params d)
+    if existsb (fun p => mems (p_name p) reserved_keywords) (f_params d)
     then Err ValueErr else Ok (map input_entry (f_params d)).
 Proof.
   intro Hnd. unfold inputs_preview.
@@ -635,14 +635,24 @@ Proof.
   destruct (is_data (c_value c)); simpl in *; [rewrite H|]; reflexivity.
 Qed.
 
+(* one call of the node against one call of the reference: same accumulated arguments; the node
+   refuses exactly when python raises; otherwise it returns the definition's value and the
+   outputs hold it (whole, or by component) *)
+Definition step_fn (sigs : list sig) (nr : node * res val) (ref : list (string * val) * option val) : Prop :=
+  let '(n', r) := nr in
+  let '(env', o) := ref in
+  value_dict (n_in n') = env' /\
+  match o with
+  | None => exists e, r = Err e
+  | Some v => n_out n' = expected_out sigs v /\ r = Ok v
+  end.
+
 Section Generic.
   Variable sem : list (string * val) -> val.
   Variable k : nclass.
   Variable F : list (string * val) -> val.        (* what the definition computes *)
 
   Definition in_sigs : list sig := map (fun e => (fst e, fst (snd e))) (k_inputs k).
-  Definition is_fn : bool := match k_kind k with KFunction => true | _ => false end.
-
   Hypothesis Hrun : forall ins, map chan_sig ins = in_sigs ->
     on_run sem (k_runner k) ins = Ok (F (value_dict ins)).
   Hypothesis Hkind : kind_ok k.
@@ -663,17 +673,6 @@ Section Generic.
     forall b, py_bind (keys (k_inputs k)) (fst op) (snd op) = Some b ->
       forall x v h, sassoc x b = Some (Some v) -> In (x, h) in_sigs -> chan_accepts h v = true.
 
-  Definition step_ok (nr : node * res val) (ref : list (string * val) * option val * bool) : Prop :=
-    let '(n', r) := nr in
-    let '(env', o, rep) := ref in
-    value_dict (n_in n') = env' /\
-    match o with
-    | None => exists e, r = Err e
-    | Some v =>
-        n_out n' = expected_out (k_outputs k) v /\
-        r = Ok (if rep && k_cache k && negb is_fn then VMap "DotDict" (value_dict (n_out n')) else v)
-    end.
-
   Lemma keys_in_sigs : map fst in_sigs = keys (k_inputs k).
   Proof. unfold in_sigs, keys. rewrite map_map. reflexivity. Qed.
 
@@ -684,12 +683,13 @@ Section Generic.
     - rewrite <- Hv, keys_value_dict, labels_of_sigs, Hs. apply keys_in_sigs.
   Qed.
 
+  (* a cache hit returns what the run returned *)
   Lemma hit_return_expected v : fits (k_outputs k) v ->
-    hit_return (k_kind k) (expected_out (k_outputs k) v) =
-      if is_fn then v else VMap "DotDict" (value_dict (expected_out (k_outputs k) v)).
+    hit_return (k_kind k) (expected_out (k_outputs k) v) = v.
   Proof.
-    intro Hf. unfold hit_return, is_fn. destruct (k_kind k); try reflexivity.
-    apply fn_return_expected. exact Hf.
+    intro Hf. destruct Hkind as [Hk|[name [h [Hk Ho]]]]; rewrite Hk.
+    - apply fn_return_expected. exact Hf.
+    - rewrite Ho. simpl. rewrite String.eqb_refl. reflexivity.
   Qed.
 
   Ltac inv_tac Hlast :=
@@ -712,9 +712,8 @@ Section Generic.
     Inv n env last -> op_admitted (pos, kw) ->
     let env' := fst (ref_call F env pos kw) in
     let o := snd (ref_call F env pos kw) in
-    let rep := match o, last with Some _, Some l => env_eqb env' l | _, _ => false end in
     let last' := match o with Some _ => Some env' | None => last end in
-    Inv (fst (call sem n pos kw)) env' last' /\ step_ok (call sem n pos kw) (env', o, rep).
+    Inv (fst (call sem n pos kw)) env' last' /\ step_fn (k_outputs k) (call sem n pos kw) (env', o).
   Proof.
     intros HI [Hkw Hadm]. simpl in Hkw, Hadm.
     destruct (inv_labels n env last HI) as [Hlab Hkeys].
@@ -756,13 +755,12 @@ Section Generic.
           apply env_eqb_eq in Eeq. rewrite Eeq, Hdc. cbn [fst snd]. split.
           -- fin Hlast.
           -- cbn. split; [rewrite <- Eeq; exact Hv'|]. split; [exact Houtc|].
-             rewrite ?env_eqb_refl, Ecache. cbn [andb]. rewrite Houtc.
-             rewrite (hit_return_expected _ (Hfits c)). destruct is_fn; reflexivity.
+             rewrite Houtc. rewrite (hit_return_expected _ (Hfits c)). reflexivity.
         * destruct (all_data env') eqn:Ed; cbn [negb fst snd].
           -- rewrite (Hrun ins Hs'), Hv'. fold env'.
              rewrite (process_ok k (n_out n) (F env') Hkind Hos (Hfits env')). cbn. rewrite ?Ecache. split.
              ++ fin Hlast.
-             ++ split; [exact Hv'|]. split; [reflexivity|]. rewrite ?Eeq. reflexivity.
+             ++ split; [exact Hv'|]. split; reflexivity.
           -- cbn. rewrite ?Ecache. split.
              ++ fin Hlast.
              ++ split; [exact Hv' | eexists; reflexivity].
@@ -779,7 +777,7 @@ Section Generic.
       + rewrite (Hrun ins Hs'), Hv'. fold env'.
         rewrite (process_ok k (n_out n) (F env') Hkind Hos (Hfits env')). cbn. rewrite ?Ecache. split.
         * fin Hlast.
-        * split; [exact Hv'|]. split; [reflexivity|]. rewrite ?andb_false_r. reflexivity.
+        * split; [exact Hv'|]. split; reflexivity.
       + cbn. rewrite ?Ecache. split.
         * fin Hlast.
         * split; [exact Hv' | eexists; reflexivity].
@@ -788,7 +786,7 @@ Section Generic.
   (* a whole history of calls follows the reference *)
   Theorem history ops : forall n env last,
     Inv n env last -> Forall op_admitted ops ->
-    Forall2 step_ok (calls sem n ops) (ref_run F env last ops).
+    Forall2 (step_fn (k_outputs k)) (calls sem n ops) (ref_run F env ops).
   Proof.
     induction ops as [|[pos kw] r IH]; intros n env last HI Hadm; simpl; [constructor|].
     inversion Hadm as [|? ? Ha Hr]; subst.
@@ -796,7 +794,7 @@ Section Generic.
     destruct (call sem n pos kw) as [n' x] eqn:Ec.
     destruct (ref_call F env pos kw) as [env' o] eqn:Er.
     simpl in Hstep. destruct Hstep as [HI' Hs]. constructor; [exact Hs|].
-    apply IH; assumption.
+    eapply IH; eassumption.
   Qed.
 
   (* construction: cls( *args, **kwargs) *)
@@ -875,23 +873,6 @@ Proof.
   - apply (make_inputs_accepts _ _ Hins).
 Qed.
 
-(* the simplified step relation of a Function node: the value of the definition, always *)
-Definition step_fn (sigs : list sig) (nr : node * res val) (ref : list (string * val) * option val * bool) : Prop :=
-  let '(n', r) := nr in
-  let '(env', o, _) := ref in
-  value_dict (n_in n') = env' /\
-  match o with
-  | None => exists e, r = Err e
-  | Some v => r = Ok v /\ n_out n' = expected_out sigs v
-  end.
-
-Lemma step_ok_fn k nr ref : k_kind k = KFunction -> step_ok k nr ref -> step_fn (k_outputs k) nr ref.
-Proof.
-  intros Hk. destruct nr as [n' r]. destruct ref as [[env' o] rep]. unfold step_ok, step_fn, is_fn.
-  rewrite Hk. intros [Hv H]. split; [exact Hv|]. destruct o as [v|]; [|exact H].
-  destruct H as [Ho Hr]. rewrite andb_false_r in Hr. split; assumption.
-Qed.
-
 Lemma Forall2_impl {A B} (P Q : A -> B -> Prop) l l' :
   (forall a b, P a b -> Q a b) -> Forall2 P l l' -> Forall2 Q l l'.
 Proof. intros H HF. induction HF; constructor; auto. Qed.
@@ -908,11 +889,13 @@ Qed.
 Lemma keys_input_entries ps : keys (map input_entry ps) = map p_name ps.
 Proof. unfold keys. rewrite map_map. reflexivity. Qed.
 
+Lemma run_flag_reserved x : In x run_flags -> mems x reserved_keywords = true.
+Proof. unfold run_flags. simpl. intros [<-|[<-|[<-|[<-|[<-|[]]]]]]; reflexivity. Qed.
+
 (* C17_run for function nodes *)
 Theorem function_node_run sem d k :
   function_class d = Ok k ->
   NoDup (map p_name (f_params d)) ->
-  (forall x, In x (map p_name (f_params d)) -> ~ In x run_flags) ->
   (forall env, fits (k_outputs k) (sem env)) ->
   defaults_accepted k ->
   forall pos0 kw0, op_admitted k (pos0, kw0) ->
@@ -923,13 +906,17 @@ Theorem function_node_run sem d k :
         let env0 := override (defaults_of k) b in
         value_dict (n_in n) = env0 /\
         forall ops, Forall (op_admitted k) ops ->
-          Forall2 (step_fn (k_outputs k)) (calls sem n ops) (ref_run sem env0 None ops)
+          Forall2 (step_fn (k_outputs k)) (calls sem n ops) (ref_run sem env0 ops)
   end.
 Proof.
-  intros Hc Hnd Hfl Hfit Hdef pos0 kw0 Hadm.
+  intros Hc Hnd Hfit Hdef pos0 kw0 Hadm.
   destruct (function_class_fields d k Hc) as [Hin [Hout [Hr [Hk Hf]]]].
   rewrite (inputs_preview_spec d Hnd) in Hin.
-  destruct (existsb _ (f_params d)); [discriminate|]. injection Hin as Hin.
+  destruct (existsb _ (f_params d)) eqn:Eres; [discriminate|]. injection Hin as Hin.
+  assert (Hfl : forall x, In x (map p_name (f_params d)) -> ~ In x run_flags).
+  { intros x Hx Hflag. apply in_map_iff in Hx. destruct Hx as [p [<- Hp]].
+    apply not_true_iff_false in Eres. apply Eres. apply existsb_exists. exists p. split; [exact Hp|].
+    apply run_flag_reserved. exact Hflag. }
   assert (Hkeys : keys (k_inputs k) = map p_name (f_params d)) by (rewrite <- Hin; apply keys_input_entries).
   assert (Hnd' : NoDup (keys (k_inputs k))) by (rewrite Hkeys; exact Hnd).
   pose proof (instantiate_plain k sem pos0 kw0 Hnd' Hf Hdef Hadm) as HI.
@@ -937,8 +924,7 @@ Proof.
   destruct (py_bind (map p_name (f_params d)) pos0 kw0) as [b|]; [|exact HI].
   destruct HI as [n [Hn HInv]]. exists n. split; [exact Hn|]. cbv zeta. split.
   - destruct HInv as [_ [_ [Hv _]]]. exact Hv.
-  - intros ops Hops. eapply Forall2_impl; [intros a b0; apply (step_ok_fn k a b0 Hk)|].
-    apply (history sem k sem); auto.
+  - intros ops Hops. apply (history sem k sem) with (last := None); auto.
     + intros ins _. rewrite Hr. reflexivity.
     + left. exact Hk.
     + rewrite Hkeys. exact Hfl.
@@ -1009,7 +995,7 @@ Theorem to_list_run n pos0 kw0 :
         let env0 := override (map (fun i => (numbered "item_" i, VNotData)) (range_from 0 n)) b in
         value_dict (n_in nd) = env0 /\
         forall sem ops, Forall (fun op => NoDup (keys (snd op))) ops ->
-          Forall2 (step_ok (to_list_class n)) (calls sem nd ops) (ref_run list_of_env env0 None ops)
+          Forall2 (step_fn (k_outputs (to_list_class n))) (calls sem nd ops) (ref_run list_of_env env0 ops)
   end.
 Proof.
   intro Hkw0. set (k := to_list_class n).
@@ -1029,27 +1015,12 @@ Proof.
   { unfold defaults_of, k. simpl. rewrite map_map. reflexivity. }
   rewrite Hd0 in HInv. cbv zeta. split.
   - destruct HInv as [_ [_ [Hv _]]]. exact Hv.
-  - intros sem ops Hops. apply (history sem k list_of_env); [intros ins _; reflexivity| | | exact Hnd | | exact HInv |].
+  - intros sem ops Hops. apply (history sem k list_of_env) with (last := None); [intros ins _; reflexivity| | | exact Hnd | | exact HInv |].
     + right. exists "list", (Some (HAtoms [AListT])). split; reflexivity.
     + intro env. reflexivity.
     + intros x Hx. unfold k in Hx. rewrite to_list_keys in Hx. apply in_map_iff in Hx.
       destruct Hx as [i [<- _]]. apply item_not_flag.
     + eapply Forall_impl; [|exact Hops]. intros op Hop. apply Hall. exact Hop.
-Qed.
-
-(* calls that do not repeat the latest successful arguments return the definition's value *)
-Lemma step_ok_plain k nr env' o : step_ok k nr (env', o, false) -> step_fn (k_outputs k) nr (env', o, false).
-Proof.
-  destruct nr as [n' r]. unfold step_ok, step_fn. intros [Hv H]. split; [exact Hv|].
-  destruct o as [v|]; [|exact H]. destruct H as [Ho Hr]. simpl in Hr. split; assumption.
-Qed.
-
-Lemma history_no_repeat k l l' :
-  Forall2 (step_ok k) l l' -> Forall (fun x => snd x = false) l' -> Forall2 (step_fn (k_outputs k)) l l'.
-Proof.
-  induction 1 as [|a b la lb Hab Hr IH]; intro Hf; constructor; inversion Hf; subst.
-  - destruct b as [[env' o] rep]. simpl in *. subst rep. apply step_ok_plain. exact Hab.
-  - apply IH. assumption.
 Qed.
 
 (* ---- default factories (DataclassNode._setup_node) ------------------------------------ *)
@@ -1183,7 +1154,7 @@ Theorem class_run k F :
         forall sem,
           (forall ins, map chan_sig ins = in_sigs k -> on_run sem (k_runner k) ins = Ok (F (value_dict ins))) ->
           forall ops, Forall (op_admitted k) ops ->
-            Forall2 (step_ok k) (calls sem n ops) (ref_run F env0 None ops)
+            Forall2 (step_fn (k_outputs k)) (calls sem n ops) (ref_run F env0 ops)
   end.
 Proof.
   intros Hnd Hdef Hfac Hkind Hfits Hfl pos0 kw0 Hadm.
@@ -1191,7 +1162,7 @@ Proof.
   destruct (py_bind (keys (k_inputs k)) pos0 kw0) as [b|]; [|exact HI].
   destruct HI as [n [Hn HInv]]. exists n. split; [exact Hn|]. cbv zeta. split.
   - destruct HInv as [_ [_ [Hv _]]]. exact Hv.
-  - intros sem Hrun ops Hops. apply (history sem k F); assumption.
+  - intros sem Hrun ops Hops. apply (history sem k F) with (last := None); assumption.
 Qed.
 
 (* ---- inputs_to_dict(spec) -------------------------------------------------------------- *)
@@ -1244,7 +1215,7 @@ Theorem to_dict_run s pos0 kw0 :
         let env0 := override (defaults_of (to_dict_class s)) b in
         value_dict (n_in nd) = env0 /\
         forall sem ops, Forall (op_admitted (to_dict_class s)) ops ->
-          Forall2 (step_ok (to_dict_class s)) (calls sem nd ops) (ref_run dict_of_env env0 None ops)
+          Forall2 (step_fn (k_outputs (to_dict_class s))) (calls sem nd ops) (ref_run dict_of_env env0 ops)
   end.
 Proof.
   intros Hs Hfl Hadm. set (k := to_dict_class s) in *.
@@ -1334,7 +1305,7 @@ Theorem dataclass_run d uc k :
         let env0 := override (dc_defaults d) b in
         value_dict (n_in nd) = env0 /\
         forall sem ops, Forall (op_admitted k) ops ->
-          Forall2 (step_ok k) (calls sem nd ops) (ref_run (record_of (dc_name d)) env0 None ops)
+          Forall2 (step_fn (k_outputs k)) (calls sem nd ops) (ref_run (record_of (dc_name d)) env0 ops)
   end.
 Proof.
   intros Hc Hnd Hacc Hfl pos0 kw0 Hadm.
@@ -1362,6 +1333,54 @@ Proof.
   destruct (py_bind (map fd_name (dc_fields d)) pos0 kw0) as [b|]; [|exact H].
   destruct H as [nd [Hn [Hv Hh]]]. exists nd. split; [exact Hn|]. rewrite <- Hse. cbv zeta. split; [exact Hv|].
   intros sem ops Hops. apply Hh; [|exact Hops]. intros ins _. rewrite Hr. reflexivity.
+Qed.
+
+(* ---- labels and hints of the channels never change ---------------------------------------- *)
+Lemma assign1_sigs cs : forall k v cs', assign1 cs k v = Ok cs' -> map chan_sig cs' = map chan_sig cs.
+Proof.
+  induction cs as [|c r IH]; intros k v cs' H; simpl in H; [discriminate|].
+  destruct (String.eqb (c_label c) k).
+  - destruct (chan_accepts (c_hint c) v); [|discriminate]. injection H as <-. reflexivity.
+  - destruct (assign1 r k v) as [r'|e] eqn:E; [|discriminate]. injection H as <-. simpl.
+    rewrite (IH _ _ _ E). reflexivity.
+Qed.
+
+Lemma assign_all_sigs l : forall cs, map chan_sig (fst (assign_all cs l)) = map chan_sig cs.
+Proof.
+  induction l as [|[k v] r IH]; intro cs; simpl; [reflexivity|].
+  destruct (assign1 cs k v) as [cs'|e] eqn:E; [|reflexivity].
+  rewrite IH. exact (assign1_sigs _ _ _ _ E).
+Qed.
+
+Lemma set_input_values_sigs cs pos kw : map chan_sig (fst (set_input_values cs pos kw)) = map chan_sig cs.
+Proof.
+  unfold set_input_values.
+  destruct (Nat.ltb _ _); [reflexivity|]. destruct (existsb _ _); [reflexivity|].
+  destruct (negb _); [reflexivity|]. apply assign_all_sigs.
+Qed.
+
+Lemma apply_factories_sigs facs todo : forall cs cs',
+  apply_factories facs todo cs = Ok cs' -> map chan_sig cs' = map chan_sig cs.
+Proof.
+  intros cs cs' H. rewrite apply_factories_assign in H.
+  pose proof (assign_all_sigs (fac_list facs todo) cs) as Hs.
+  destruct (assign_all cs (fac_list facs todo)) as [cs1 [e|]]; [discriminate|]. injection H as <-. exact Hs.
+Qed.
+
+(* every instance that gets constructed, whatever the arguments, has one input channel per
+   previewed input and one output channel per previewed output, in order, same hints *)
+Theorem instantiate_channels k pos kw n : instantiate k pos kw = Ok n ->
+  n_cls n = k /\ map chan_sig (n_in n) = in_sigs k /\ map chan_sig (n_out n) = k_outputs k /\
+  n_failed n = false /\ n_cached n = None /\ forall c, In c (n_out n) -> c_value c = VNotData.
+Proof.
+  unfold instantiate. destruct (make_inputs (k_inputs k)) as [ins|e] eqn:Em; [|discriminate].
+  destruct (apply_factories (k_factories k) ins ins) as [ins1|e] eqn:Ef; [|discriminate].
+  pose proof (set_input_values_sigs ins1 pos kw) as Hs.
+  destruct (set_input_values ins1 pos kw) as [ins2 [e|]]; [discriminate|]. intro H. injection H as <-. simpl.
+  repeat split.
+  - simpl in Hs. rewrite Hs, (apply_factories_sigs _ _ _ _ Ef). apply make_inputs_sigs. exact Em.
+  - unfold make_outputs. rewrite map_map. rewrite <- (map_id (k_outputs k)) at 2. apply map_ext. intros [l h]. reflexivity.
+  - intros c Hc. unfold make_outputs in Hc. apply in_map_iff in Hc. destruct Hc as [lh [<- _]]. reflexivity.
 Qed.
 
 (* ---- list_to_outputs(n) -------------------------------------------------------------------- *)
@@ -1421,88 +1440,86 @@ Qed.
 
 Definition list_chan (v : val) : chan := {| c_label := "list"; c_hint := Some (HAtoms [AListT]); c_value := v |}.
 
-(* node( *args, **kwargs) on a list_to_outputs(n) node, the list given positionally or by keyword,
-   any earlier state of inputs and outputs, no cache hit: outputs = the items *)
-Theorem from_list_call sem n nd v0 l pos kw :
-  n_cls nd = from_list_class n -> n_in nd = [list_chan v0] ->
-  map chan_sig (n_out nd) = k_outputs (from_list_class n) -> n_failed nd = false ->
-  n_cached nd <> Some [("list", VList l)] ->
-  NoDup (keys kw) -> py_bind ["list"] pos kw = Some [("list", Some (VList l))] ->
-  List.length l = n ->
-  call sem nd pos kw =
-    ({| n_cls := from_list_class n; n_in := [list_chan (VList l)];
-        n_out := fill (k_outputs (from_list_class n)) l; n_failed := false;
-        n_cached := Some [("list", VList l)] |}, Ok (items_dict l)).
+Lemma fill_value_dict n l : List.length l = n ->
+  value_dict (fill (k_outputs (from_list_class n)) l) = enumerate_items 0 l.
 Proof.
-  intros Hc Hin Hos Hnf Hca Hkw Hb Hl. unfold call.
+  intro Hl. subst n. rewrite enumerate_items_combine. simpl k_outputs. generalize 0.
+  induction l as [|v l IH]; intro i; simpl; [reflexivity|]. f_equal. apply IH.
+Qed.
+
+(* the states a list_to_outputs(n) node goes through while it does not fail *)
+Definition from_list_inv (n : nat) (nd : node) : Prop :=
+  n_cls nd = from_list_class n /\ (exists v0, n_in nd = [list_chan v0]) /\
+  map chan_sig (n_out nd) = k_outputs (from_list_class n) /\ n_failed nd = false /\
+  forall c, n_cached nd = Some c ->
+    exists l, c = [("list", VList l)] /\ List.length l = n /\
+              n_out nd = fill (k_outputs (from_list_class n)) l.
+
+(* node( *args, **kwargs) on a list_to_outputs(n) node, the list given positionally or by keyword,
+   in any such state (cache hit or not): a list of the node's size goes to the outputs item by
+   item and the item dict is returned; any other length raises ValueError, the outputs stay as
+   they are and the node is failed *)
+Theorem from_list_call sem n nd l pos kw :
+  from_list_inv n nd ->
+  NoDup (keys kw) -> py_bind ["list"] pos kw = Some [("list", Some (VList l))] ->
+  n_in (fst (call sem nd pos kw)) = [list_chan (VList l)] /\
+  (List.length l = n ->
+     snd (call sem nd pos kw) = Ok (items_dict l) /\
+     n_out (fst (call sem nd pos kw)) = fill (k_outputs (from_list_class n)) l /\
+     from_list_inv n (fst (call sem nd pos kw))) /\
+  (List.length l <> n ->
+     snd (call sem nd pos kw) = Err ValueErr /\
+     n_out (fst (call sem nd pos kw)) = n_out nd /\ n_failed (fst (call sem nd pos kw)) = true).
+Proof.
+  intros [Hc [[v0 Hin] [Hos [Hnf Hca]]]] Hkw Hb. unfold call.
   assert (Hfl : existsb (fun key => mems key run_flags) (keys kw) = false).
   { apply not_true_iff_false. intro H. apply existsb_exists in H. destruct H as [key [H1 H2]].
     unfold py_bind in Hb. destruct (forallb (fun k => mems k ["list"]) (keys kw)) eqn:E; [|discriminate].
     rewrite forallb_forall in E. specialize (E key H1). apply mems_In in E. destruct E as [<-|[]].
     vm_compute in H2. discriminate. }
   rewrite Hfl, Hin.
-  rewrite (set_input_values_accepted [list_chan v0] pos kw [("list", Some (VList l))]).
-  - assert (Hab : apply_bind [list_chan v0] [("list", Some (VList l))] = [list_chan (VList l)]) by reflexivity.
-    rewrite Hab. rewrite Hnf, Hc. cbn [k_cache from_list_class negb andb orb].
-    assert (Hmiss : match n_cached nd with
-                    | Some c => env_eqb (value_dict [list_chan (VList l)]) c | None => false end = false).
-    { destruct (n_cached nd) as [c|]; [|reflexivity]. apply env_eqb_neq. intro E. apply Hca. rewrite <- E. reflexivity. }
-    rewrite Hmiss. cbn [forallb chan_ready list_chan c_value c_hint is_data admits union_admits existsb atom_admits andb orb negb].
+  rewrite (set_input_values_accepted [list_chan v0] pos kw [("list", Some (VList l))]);
+    [|repeat constructor; intros []|exact Hkw|exact Hb|
+     intros c v [<-|[]] Ha; cbn in Ha; injection Ha as <-; reflexivity].
+  assert (Hab : apply_bind [list_chan v0] [("list", Some (VList l))] = [list_chan (VList l)]) by reflexivity.
+  rewrite Hab, Hnf, Hc. cbn [k_cache from_list_class negb andb orb].
+  change (value_dict [list_chan (VList l)]) with [("list", VList l)].
+  destruct (match n_cached nd with Some c => env_eqb [("list", VList l)] c | None => false end) eqn:Ehit.
+  - (* cache hit: the outputs already hold these items *)
+    destruct (n_cached nd) as [c|] eqn:Ecache; [|discriminate]. apply env_eqb_eq in Ehit. subst c.
+    destruct (Hca _ eq_refl) as [l' [El [Hl Hout]]]. injection El as <-.
+    cbn [fst snd n_in n_out]. split; [reflexivity|]. split.
+    + intros _. split; [|split; [exact Hout|]].
+      * change (k_kind (from_list_class n)) with KToMany. unfold hit_return, items_dict.
+        rewrite Hout, (fill_value_dict n l Hl). reflexivity.
+      * split; [reflexivity|]. split; [exists (VList l); reflexivity|]. split; [exact Hos|]. split; [reflexivity|].
+        cbn [n_cached]. intros c Hc'. rewrite Ecache in Hc'. injection Hc' as <-. exists l. auto.
+    + intro Hne. contradiction.
+  - cbn [forallb chan_ready list_chan c_value c_hint is_data admits union_admits existsb atom_admits andb orb negb].
     cbn [on_run k_runner from_list_class value_dict map list_chan c_label c_value iterate].
-    fold (items_dict l). change (k_kind (from_list_class n)) with KToMany.
-    rewrite (from_list_store n (n_out nd) l Hos Hl). reflexivity.
-  - repeat constructor. intros [].
-  - exact Hkw.
-  - exact Hb.
-  - intros c v [<-|[]] Ha. cbn in Ha. injection Ha as <-. reflexivity.
+    destruct (Nat.eqb (List.length l) n) eqn:El.
+    + apply Nat.eqb_eq in El. fold (items_dict l). change (k_kind (from_list_class n)) with KToMany.
+      rewrite (from_list_store n (n_out nd) l Hos El). cbn [fst snd n_in n_out n_failed].
+      split; [reflexivity|]. split; [|intro Hne; contradiction].
+      intros _. split; [reflexivity|]. split; [reflexivity|].
+      split; [reflexivity|]. split; [exists (VList l); reflexivity|].
+      split; [apply fill_sigs; simpl; rewrite map_length; clear -El; revert l El; generalize 0;
+              induction n as [|n IH]; intros i [|v l] H; simpl in *; try discriminate; [reflexivity|];
+              f_equal; apply IH; lia|].
+      split; [reflexivity|]. cbn [n_cached]. intros c Hc'. injection Hc' as <-. exists l. auto.
+    + apply Nat.eqb_neq in El. cbn [fst snd n_in n_out n_failed].
+      split; [reflexivity|]. split; [intro; contradiction|]. intros _. auto.
 Qed.
 
-(* ---- labels and hints of the channels never change ---------------------------------------- *)
-Lemma assign1_sigs cs : forall k v cs', assign1 cs k v = Ok cs' -> map chan_sig cs' = map chan_sig cs.
+(* a fresh instance is in such a state *)
+Lemma from_list_fresh n pos kw nd : instantiate (from_list_class n) pos kw = Ok nd -> from_list_inv n nd.
 Proof.
-  induction cs as [|c r IH]; intros k v cs' H; simpl in H; [discriminate|].
-  destruct (String.eqb (c_label c) k).
-  - destruct (chan_accepts (c_hint c) v); [|discriminate]. injection H as <-. reflexivity.
-  - destruct (assign1 r k v) as [r'|e] eqn:E; [|discriminate]. injection H as <-. simpl.
-    rewrite (IH _ _ _ E). reflexivity.
-Qed.
-
-Lemma assign_all_sigs l : forall cs, map chan_sig (fst (assign_all cs l)) = map chan_sig cs.
-Proof.
-  induction l as [|[k v] r IH]; intro cs; simpl; [reflexivity|].
-  destruct (assign1 cs k v) as [cs'|e] eqn:E; [|reflexivity].
-  rewrite IH. exact (assign1_sigs _ _ _ _ E).
-Qed.
-
-Lemma set_input_values_sigs cs pos kw : map chan_sig (fst (set_input_values cs pos kw)) = map chan_sig cs.
-Proof.
-  unfold set_input_values.
-  destruct (Nat.ltb _ _); [reflexivity|]. destruct (existsb _ _); [reflexivity|].
-  destruct (negb _); [reflexivity|]. apply assign_all_sigs.
-Qed.
-
-Lemma apply_factories_sigs facs todo : forall cs cs',
-  apply_factories facs todo cs = Ok cs' -> map chan_sig cs' = map chan_sig cs.
-Proof.
-  intros cs cs' H. rewrite apply_factories_assign in H.
-  pose proof (assign_all_sigs (fac_list facs todo) cs) as Hs.
-  destruct (assign_all cs (fac_list facs todo)) as [cs1 [e|]]; [discriminate|]. injection H as <-. exact Hs.
-Qed.
-
-(* every instance that gets constructed, whatever the arguments, has one input channel per
-   previewed input and one output channel per previewed output, in order, same hints *)
-Theorem instantiate_channels k pos kw n : instantiate k pos kw = Ok n ->
-  n_cls n = k /\ map chan_sig (n_in n) = in_sigs k /\ map chan_sig (n_out n) = k_outputs k /\
-  n_failed n = false /\ forall c, In c (n_out n) -> c_value c = VNotData.
-Proof.
-  unfold instantiate. destruct (make_inputs (k_inputs k)) as [ins|e] eqn:Em; [|discriminate].
-  destruct (apply_factories (k_factories k) ins ins) as [ins1|e] eqn:Ef; [|discriminate].
-  pose proof (set_input_values_sigs ins1 pos kw) as Hs.
-  destruct (set_input_values ins1 pos kw) as [ins2 [e|]]; [discriminate|]. intro H. injection H as <-. simpl.
-  repeat split.
-  - simpl in Hs. rewrite Hs, (apply_factories_sigs _ _ _ _ Ef). apply make_inputs_sigs. exact Em.
-  - unfold make_outputs. rewrite map_map. rewrite <- (map_id (k_outputs k)) at 2. apply map_ext. intros [l h]. reflexivity.
-  - intros c Hc. unfold make_outputs in Hc. apply in_map_iff in Hc. destruct Hc as [lh [<- _]]. reflexivity.
+  intro H. destruct (instantiate_channels _ _ _ _ H) as [Hc [Hs [Ho [Hf [Hcache _]]]]].
+  split; [exact Hc|]. split.
+  - unfold in_sigs in Hs. simpl in Hs. destruct (n_in nd) as [|c [|c2 r]]; try discriminate.
+    injection Hs as Hs. destruct c as [lb h v]. unfold chan_sig in Hs. simpl in Hs. injection Hs as -> ->.
+    exists v. reflexivity.
+  - split; [exact Ho|]. split; [exact Hf|]. intros c Hc'. rewrite Hcache in Hc'. discriminate.
 Qed.
 
 (* the input signature of a function class, spelled out *)
